@@ -612,7 +612,73 @@ def _reset(run, P, C):
                "otherwise statements are left out")
 
 
+def independent_fields(run, P, rule, class_fqs):
+    """pytools' Record.copy(x=new) re-passes every *stored* field to the
+    constructor: a stored field that was computed from another stored field
+    keeps the value it had for the old one."""
+    for fq in class_fqs:
+        c = P.cls(fq)
+        init = c.methods.get("__init__")
+        if init is None:
+            continue
+        calls = [x for x in ast.walk(init.node) if isinstance(x, ast.Call) and (
+            (isinstance(x.func, ast.Attribute) and x.func.attr == "__init__"))
+            and any(k.arg for k in x.keywords)]
+        if not calls:
+            continue
+        call = calls[0]
+        stored = {k.arg for k in call.keywords if k.arg}
+        # which parameters does each local depend on?
+        deps = {p_: {p_} for p_ in init.params}
+        changed = True
+        while changed:
+            changed = False
+            for s_ in ast.walk(init.node):
+                tg, val = [], None
+                if isinstance(s_, ast.Assign):
+                    tg, val = s_.targets, s_.value
+                elif isinstance(s_, ast.AugAssign):
+                    tg, val = [s_.target], s_.value
+                elif isinstance(s_, ast.For):
+                    tg, val = [s_.target], s_.iter
+                elif isinstance(s_, ast.comprehension):
+                    tg, val = [s_.target], s_.iter
+                if val is None:
+                    continue
+                src = set()
+                for y in ast.walk(val):
+                    if isinstance(y, ast.Name) and y.id in deps:
+                        src |= deps[y.id]
+                for t in tg:
+                    for y in ast.walk(t):
+                        if isinstance(y, ast.Name):
+                            old = deps.get(y.id, set())
+                            if not src <= old:
+                                deps[y.id] = old | src
+                                changed = True
+        bad = []
+        for k in call.keywords:
+            if not k.arg:
+                continue
+            used = set()
+            for y in ast.walk(k.value):
+                if isinstance(y, ast.Name) and y.id in deps:
+                    used |= deps[y.id]
+            other = (used & stored) - {k.arg}
+            if other:
+                bad.append((k, sorted(other)))
+        run.ob(rule, init, bad[0][0].value if bad else call, not bad,
+               construct=f"{c.name}: no stored field is computed from another stored field"
+                         + (f" ('{bad[0][0].arg}' from {bad[0][1]})" if bad else
+                            f" ({sorted(stored)})"),
+               why="copy(statements=...) of such an object keeps what was derived from the old "
+                   "statements: the roots of a copied phase are those of the original, new "
+                   "statements are never visited and removed ones are looked up")
+
+
 def _sinks(run, P):
+    run.do(independent_fields, run, P, "C04.sinks",
+           ["dagrt.language.ExecutionPhase", "dagrt.language.DAGCode"])
     f = P.func("dagrt.language.ExecutionPhase.depends_on")
     rets = [s for s in func_body_stmts(f.node) if isinstance(s, ast.Return)]
     if len(rets) != 1 or not isinstance(rets[0].value, ast.Name):
